@@ -2,6 +2,7 @@ package content
 
 import (
 	"errors"
+	"fmt"
 	"html/template"
 
 	"github.com/gobuffalo/plush/v5/helpers/hctx"
@@ -31,5 +32,26 @@ func ContentOf(name string, data hctx.Map, help hctx.HelperContext) (template.HT
 
 		return template.HTML(body), nil
 	}
-	return fn(data)
+	// a stored block that renders itself without end must fail, not run
+	// until the process dies: the nesting depth travels with the data, which
+	// become part of the scope the block is rendered in
+	depth, _ := help.Value(depthKey).(int)
+	if depth >= maxDepth {
+		return template.HTML(""), fmt.Errorf("contentOf %q: stored blocks nested deeper than %d levels", name, maxDepth)
+	}
+
+	scoped := hctx.Map{}
+	for k, v := range data {
+		scoped[k] = v
+	}
+	scoped[depthKey] = depth + 1
+
+	return fn(scoped)
 }
+
+// maxDepth bounds the nesting of stored blocks rendering stored blocks.
+const maxDepth = 1000
+
+// depthKey is the key under which the scope of a stored block records how
+// deeply it is nested. No identifier of a template can spell it.
+const depthKey = "contentOf: depth"
